@@ -563,3 +563,6 @@ func (w *World) Reload() (*verifexport.BanFile, error) {
 	w.Srv.BanList = nb
 	return nb, nil
 }
+
+// CloseWrite half-closes the client's sending direction (the server reads EOF after the bytes sent so far).
+func (c *Client) CloseWrite() { c.conn.CloseWrite() }
